@@ -288,9 +288,80 @@ def conf_requests(rng, tier, texts):
                                      b'"' + b'a' * 8200 + b'"', b'x' * 8200])
         reqs.append(('conf', bytes(t), HOME))
     return reqs
+# --------------------------------------------------------------------------
+# The macro context matrix: every kind of macro reference in every string position of the grammar.
+#
+# mdsort.conf(5): "Macros ... can later be interpolated inside strings", "${macro} where macro is a defined macro", "the following
+# macros are available in action: path".  So: a defined macro is valid in every string; ${path} is valid in the strings of actions
+# and misplaced everywhere else (macro values, maildir paths, header names, isdirectory, command); an undefined or unterminated
+# reference is an error everywhere.  Patterns are not strings: a macro referenced only from a pattern is unused.
+# Contexts: default = expanded when the file is read; action = expanded when the file is read, ${path} deferred to action time;
+# raw = strings the parser hands on without looking at them (class strings-not-expanded when that shows).
+# --------------------------------------------------------------------------
+
+PRE = '\tmatch header "To" /user1@/ move "%s/dst2"\n@X@' % R          # a valid rule in front of the string under test: it moves a message
+
+
+def _md(rule):
+    return 'maildir "%s/src" {\n%s\t%s\n}\n' % (R, PRE, rule)
+
+
+POSITIONS = [
+    # (name, context, configuration with @S@ for the string under test, a valid string for that place)
+    ('macro-value', 'default', 'w = "@S@"\n' + _md('match header "${w}" /user/ move "%s/dst"' % R), 'To'),
+    ('maildir-path', 'default', 'maildir "@S@" {\n%s\tmatch all move "%s/dst"\n}\n' % (PRE, R), R + '/src'),
+    ('maildir-path-block', 'default', 'maildir { "%s/md3" "@S@" } {\n%s\tmatch all move "%s/dst"\n}\n' % (R, PRE, R), R + '/src'),
+    ('header-name', 'default', _md('match header "@S@" /user/ move "%s/dst"' % R), 'To'),
+    ('header-name-block', 'default', _md('match header { "Cc" "@S@" } /user/ move "%s/dst"' % R), 'To'),
+    ('isdirectory', 'default', _md('match isdirectory "@S@" move "%s/dst"' % R), R + '/dst'),
+    ('command', 'default', _md('match command "@S@" move "%s/dst"' % R), '@HELPER@'),
+    ('command-argument', 'default', _md('match command { "@HELPER@" "@S@" } move "%s/dst"' % R), 'argument'),
+    ('move', 'action', _md('match all move "@S@"'), R + '/dst'),
+    ('label', 'action', _md('match all label "@S@"'), 'label'),
+    ('label-block', 'action', _md('match all label { "one" "@S@" }'), 'label'),
+    ('exec', 'action', _md('match all exec "@S@"'), '@HELPER@'),
+    ('exec-argument', 'action', _md('match all exec { "@HELPER@" "@S@" }'), 'argument'),
+    ('exec-stdin-argument', 'action', _md('match all exec stdin { "@HELPER@" "@S@" }'), 'argument'),
+    ('add-header-name', 'default', _md('match all add-header "@S@" "value"'), 'X-Added'),
+    ('add-header-value', 'action', _md('match all add-header "X-Added" "@S@"'), 'value'),
+    ('flags', 'default', _md('match all flags "@S@"'), 'RS'),
+    ('pattern', 'pattern', _md('match header "To" /@S@/ move "%s/dst"' % R), 'user'),
+]
+KINDS = ['user', 'user-whole', 'user-shared', 'path', 'path-whole', 'unknown', 'unterminated']
+
+
+def macro_cell(position, kind, helper):
+    """(configuration, the same configuration with the value written in place or None, expected verdict or None, class of a deviation)"""
+    name, ctx, tmpl, full = position
+    tmpl, full = tmpl.replace('@HELPER@', helper), full.replace('@HELPER@', helper)
+    shared = '\tmatch header "${m}" /nomatch/ move "%s/dst"\n' % R
+    k = len(R) + 1 if full.startswith(R + '/') else 1          # never split the sandbox placeholder
+    head, tail = full[:k], full[k:]
+    defs, text, extra, ref = {
+        'user': ('m = "%s"\n' % tail, head + '${m}', '', ('', full, '')),
+        'user-whole': ('m = "%s"\n' % full, '${m}', '', ('', full, '')),
+        'user-shared': ('m = "%s"\n' % tail, head + '${m}', shared, ('', full, shared.replace('${m}', tail))),
+        'path': ('', head + '${path}', '', None),
+        'path-whole': ('', '${path}', '', None),
+        'unknown': ('', head + '${nosuch}', '', None),
+        'unterminated': ('m = "%s"\n' % tail, head + '${m', '', None),
+    }[kind]
+    conf = defs + tmpl.replace('@S@', text).replace('@X@', extra)
+    refconf = None if ref is None else ref[0] + tmpl.replace('@S@', ref[1]).replace('@X@', ref[2])
+    if ctx == 'pattern':
+        exp = 'reject' if kind in ('user', 'user-whole') else None
+        refconf = None
+    elif kind.startswith('user'):
+        exp = 'accept'
+    elif kind.startswith('path'):
+        exp = 'reject' if ctx == 'default' else 'accept'
+    else:
+        exp = 'reject'
+    return conf, refconf, exp, 'strings-not-expanded' if ctx == 'raw' else 'unlisted'
+
 
 def population():
-    t = ws.base_tree(2, 1)
+    t = ws.base_tree(2, 1, extra_dirs=('dst', 'dst2', 'md3'))
     return t
 
 
@@ -305,7 +376,7 @@ def run_conf(tools, conf, args=(), stdin=None, timeout=10):
             a, b = ws.maildir_files(scen.initial), ws.maildir_files(r.final)
             changed = sorted(set(a.items()) ^ set(b.items()))
         opened = [c['raw'] for c in r.calls() if c['name'] in ('opendir', 'openat', 'fork', 'mkdtemp')]
-        return r.status, r.err.decode('latin-1').replace(scen.root, R), changed, r.helper, opened
+        return r.status, r.err.decode('latin-1').replace(scen.root, R), changed, [h.replace(scen.root, R) for h in r.helper], opened
     finally:
         scen.cleanup()
 
@@ -461,6 +532,35 @@ def run(rep):
                 probs.append('%s: a maildir or message was opened although the configuration is invalid: %s' % (name, opened[0][:100]))
         return {'kind': 'reject:' + name, 'config': conf[:1500], 'problems': probs}
 
+    def cell(item):
+        """One cell of the macro context matrix, judged by what the manual says about that combination."""
+        position, kind = item
+        conf, refconf, exp, cls = macro_cell(position, kind, tools.helper)
+        name = 'macro:%s:%s' % (position[0], kind)
+        if exp == 'reject':
+            r = reject((name, conf))
+            return dict(r, kind='reject:' + name, cls=cls, expected=exp, verdict='rejected' if not r['problems'] else 'NOT rejected as a whole')
+        st, err, changed, helper, opened = run_conf(tools, conf, args=['-n'])
+        if exp is None:
+            # not documented either way: it must still be one or the other as a whole
+            if st != 0:
+                r = reject((name, conf))
+                return dict(r, kind='whole:' + name, cls=cls, expected='either', verdict='rejected')
+            return {'kind': 'whole:' + name, 'config': conf[:1500], 'problems': [], 'cls': cls, 'expected': 'either', 'verdict': 'accepted'}
+        probs = []
+        if st != 0 or err.strip():
+            probs.append('%s: a configuration the manual documents as valid is not accepted by -n: exit status %r, stderr %r' % (name, st, err[-200:]))
+        st2, err2, changed2, helper2, opened2 = run_conf(tools, conf)
+        if 'macro' in err2:
+            probs.append('%s: accepted when read, but the run stumbles over the macro (exit status %r, %d maildir files changed by then): %r' %
+                         (name, st2, len(changed2), err2[-200:]))
+        if refconf is not None and not probs:
+            st3, err3, changed3, helper3, opened3 = run_conf(tools, refconf)
+            if (st2, changed2, helper2) != (st3, changed3, helper3):
+                probs.append('%s: the run differs from the run of the same file with the value written in place of the macro: exit status %r / %r, '
+                             'maildir differences %d / %d, commands run %d / %d' % (name, st2, st3, len(changed2), len(changed3), len(helper2), len(helper3)))
+        return {'kind': 'accept:' + name, 'config': conf[:1500], 'problems': probs, 'cls': cls, 'expected': exp, 'verdict': 'accepted' if not probs else 'NOT accepted'}
+
     def total(text):
         st, err, changed, helper, opened = run_conf(tools, text, args=['-n'], timeout=10)
         probs = []
@@ -472,11 +572,13 @@ def run(rep):
 
     tot = [t for t in texts[len(EDITS) + 1 + n:]][: (150 if rep.tier == 'quick' else 20000)]
     tot += ['# only a comment', 'maildir "%s/src" {\n\tmatch all flag new\n}\n# trailing comment without newline' % R, '#', '"', '/', 'x', 'x =', 'maildir']
+    cells = [(p, k) for p in POSITIONS for k in KINDS]
     with cf.ThreadPoolExecutor(vlib.NCPU) as ex:
-        results = list(ex.map(accept, acc)) + list(ex.map(reject, rej)) + list(ex.map(total, tot))
+        matrix = list(ex.map(cell, cells))
+        results = list(ex.map(accept, acc)) + list(ex.map(reject, rej)) + list(ex.map(total, tot)) + matrix
     for r in results:
         if r['problems']:
-            rep.finding('unlisted', {'kind': r['kind'], 'config': r['config'], 'what': r['problems'][:4]})
+            rep.finding(r.get('cls', 'unlisted'), {'kind': r['kind'], 'config': r['config'], 'what': r['problems'][:4]})
     if corr_bad and not rep.violations:
         rep.violation({'obligation': 'correspondence yylex (parse.y) <-> Model/Lex.lean, token by token under the real parser', 'disagreements': len(corr_bad),
                        'examples': corr_bad[:6]}, False)
@@ -494,6 +596,19 @@ def run(rep):
         'samples': [{'config': t[:200], 'tokens': o[:4]} for t, o, e in idx[:2]],
         'tokens_compared': ntok,
         'error_classes': [name for name, _ in rej],
+        'macro_context_matrix': {
+            'rule': 'every kind of macro reference (defined macro inside / as the whole string / also used elsewhere, ${path} inside / whole, undefined, '
+                    'unterminated) in every string position of the grammar (macro value, maildir path single and in a list, header name single and in a '
+                    'list, isdirectory, command and its arguments, move, label single and list, exec command / argument / with stdin, add-header name and '
+                    'value, flags; and a pattern) behind a valid rule that moves a message; expected verdict from mdsort.conf(5): defined macros are '
+                    'valid in every string, ${path} in actions only, undefined/unterminated nowhere, a macro used only in a pattern is unused; reject '
+                    '= exit 1 (75 with "-"), file:line diagnostic, populated maildir untouched, nothing opened, no command run; accept = -n exit 0 '
+                    'silently, the run never complains about a macro and (defined macros) equals the run of the file with the value written in place',
+            'cells': len(matrix),
+            'expected': {e: sum(1 for m in matrix if m['expected'] == e) for e in ('accept', 'reject', 'either')},
+            'deviations': {m['kind']: m['problems'][0][:160] for m in matrix if m['problems']},
+            'table': {m['kind'].split(':', 1)[1]: m['verdict'] for m in matrix},
+        },
         'correspondence_mismatches': len(corr_bad),
         'parser_requests': len(creqs), 'parser_accepted': conf_ok, 'parser_rejected': conf_err,
         'parser_distinct_diagnostic_lines': conf_lines, 'parser_inner_nodes_compared': conf_nodes,
